@@ -25,12 +25,15 @@ class C11(Monitor):
         self.picked: Set[str] = set()
         # expected admission step per request (None = never)
         self.exp_add: Dict[str, Optional[int]] = {}
+        self.optional: Set[str] = set()  # fail the fleet-membership admission rule: the property is silent about them
         for r in spec["requests"]:
             d = r["t"]
             k = max(0, math.floor((d - self.t0) / self.dt) + 1)  # first k with t_k > d
             tk = self.t0 + k * self.dt
             rule = bool(r.get("fleet")) == self.has_fleets
-            self.exp_add[r["id"]] = k if (rule and d + self.timeout > tk) else None
+            self.exp_add[r["id"]] = k if (d + self.timeout > tk) else None
+            if not rule:
+                self.optional.add(r["id"])
         # tariffs
         self.prices = spec.get("prices")
         self.rows = list(self.prices["rows"]) if self.prices else []
@@ -80,7 +83,9 @@ class C11(Monitor):
             elif exp != k:
                 ctx.violate("C11", "admitted-in-wrong-step", f"request {rid} (departure {self.reqs[rid]['t']}) admitted in step {k} (t={tk}), expected step {exp}", request=rid, dt=self.dt, start=self.t0)
         for rid, exp in self.exp_add.items():
-            if exp == k and rid not in self.added:
+            if exp == k and rid not in self.added and rid in self.optional:
+                self.added[rid] = -1
+            elif exp == k and rid not in self.added:
                 ctx.violate("C11", "not-admitted", f"request {rid} (departure {self.reqs[rid]['t']}) not admitted in step {k} (t={tk})", request=rid, dt=self.dt, start=self.t0, timeout=self.timeout)
                 self.added[rid] = -1
             elif exp is None and self.reqs[rid]["t"] < tk:
